@@ -1243,8 +1243,8 @@ class StmtMixin:
         s_else = st.copy()
         s_else.assume(z3.Not(c))
         self.narrow_opt(node.test, s_then, s_else)
-        o1 = self.exec_block(node.body, s_then) if self.feasible(s_then) else []
-        if not self.feasible(s_else):
+        o1 = self.exec_block(node.body, s_then) if self.feasible(s_then, base) else []
+        if not self.feasible(s_else, base):
             o2 = []
         else:
             o2 = self.exec_block(node.orelse, s_else) if node.orelse else [(s_else, Outcome("normal"))]
@@ -1317,19 +1317,14 @@ class StmtMixin:
                     other.assume(s.is_nil(v.term))
                     other.env[name] = Val.const(None)
 
-    def feasible(self, st) -> bool:
-        """Cheap in-process pruning of contradictory paths (unknown counts as feasible)."""
+    def feasible(self, st, base=None) -> bool:
+        """Cheap in-process pruning of contradictory paths (unknown counts as feasible).  `base`: index of the first
+        conjunct added since the path was last known feasible (enables the cone-of-influence slice, see quick.py)."""
+        from . import quick
+
         if not st.pc:
             return True
-        sol = z3.Solver()
-        sol.set("timeout", 300)
-        sol.set("rlimit", 400000)
-        for p in st.pc:
-            if z3.is_quantifier(p):
-                continue
-            sol.add(p)
-        r = sol.check()
-        if r == z3.unsat:
+        if not quick.feasible(st.pc, base):
             self.pruned = getattr(self, "pruned", 0) + 1
             return False
         return True
